@@ -62,11 +62,13 @@ type Explorer struct {
 	schedPoints                                           int64
 	maxMutations                                          int
 	crossFiles                                            []string
+	forks                                                 map[string]int
+	portUnknown                                           int
 }
 
 func NewExplorer(p *Prog, cfg Config) *Explorer {
 	ex := &Explorer{cfg: cfg, p: p, violations: map[string]*Violation{}, violCount: map[string]int{}, races: map[string]*Violation{},
-		reach: map[string]int{}, funcs: map[*ssa.Function]bool{}, unsupp: map[string]int{}, bounds: map[string]int{}, perHarness: map[string]int{}}
+		reach: map[string]int{}, funcs: map[*ssa.Function]bool{}, unsupp: map[string]int{}, bounds: map[string]int{}, perHarness: map[string]int{}, forks: map[string]int{}}
 	ex.cond = sync.NewCond(&ex.mu)
 	return ex
 }
@@ -83,6 +85,12 @@ type Worker struct {
 }
 
 func (w *Worker) push(m *Machine, alt int) { w.pushWithModel(m, alt, m.model) }
+
+func (w *Worker) forkSite(site string) {
+	w.ex.mu.Lock()
+	w.ex.forks[site]++
+	w.ex.mu.Unlock()
+}
 
 func (w *Worker) pushWithModel(m *Machine, alt int, model map[string]uint64) {
 	tr := make([]int, m.pos+1)
@@ -154,6 +162,7 @@ func (ex *Explorer) Run(harnesses []*ssa.Function) {
 			ex.dischSyn += w.dischargedSyntactic
 			ex.dischSolver += w.dischargedSolver
 			ex.modelMismatch += w.modelMismatch
+			ex.portUnknown += w.unknownQueries
 			ex.mu.Unlock()
 		}(i)
 	}
@@ -317,6 +326,26 @@ func (ex *Explorer) sortedUnsupported() []string {
 		out = append(out, fmt.Sprintf("%s (x%d)", k, v))
 	}
 	sort.Strings(out)
+	return out
+}
+
+func (ex *Explorer) topForks(n int) []string {
+	type kv struct {
+		k string
+		v int
+	}
+	var l []kv
+	for k, v := range ex.forks {
+		l = append(l, kv{k, v})
+	}
+	sort.Slice(l, func(i, j int) bool { return l[i].v > l[j].v || (l[i].v == l[j].v && l[i].k < l[j].k) })
+	var out []string
+	for i, x := range l {
+		if i >= n {
+			break
+		}
+		out = append(out, fmt.Sprintf("%s: %d", x.k, x.v))
+	}
 	return out
 }
 
